@@ -52,7 +52,9 @@ func genPolicyPW(t *rapid.T, user string) (string, string) {
 	case "username":
 		return rapid.SampledFrom([]string{user, user + "1", "whawty", "whawty123", strings.ToUpper(user), user + user, user + "-42", "zaphod.beeblebrox-42", "zaphod.beeblebrox"}).Draw(t, "w"), cls
 	case "l33t":
-		return rapid.SampledFrom([]string{"p@ssw0rd", "wh4wty", "P4$$w0rd!", "l3tm31n", "dr4g0n"}).Draw(t, "w"), cls
+		// (the last ones spell several dictionary words with nine and more different substitution characters)
+		return rapid.SampledFrom([]string{"p@ssw0rd", "wh4wty", "P4$$w0rd!", "l3tm31n", "dr4g0n", "1l0v3y0u!+p@$$w0rd4+5h4d0w", "p@$$w0rd+5h4d0w+1l0v3y0u!",
+			"m0nk3y+dr4g0n+5un5h1n3+pr1nc355!", "7ru57n01+l37m31n+f00764ll+9w3r7y", "p@55w0rd|2345678906{[<%", "4@8({[<36901!|7$5+%2"}).Draw(t, "w"), cls
 	case "repeat":
 		return strings.Repeat(rapid.SampledFrom([]string{"a", "ab", "abc", "1", "xyz"}).Draw(t, "unit"), rapid.IntRange(1, 12).Draw(t, "times")), cls
 	case "random":
